@@ -29,6 +29,7 @@ THEOREMS = [
     "Aio.C19.gather_terminates",
     "Aio.C19.gather_fuel_enough",
     "Aio.C19.gather_eof_counter",
+    "Aio.C19.reader_terminates_partial",
 ]
 RULE = ("(a) round trips: real MultipartWriter (subtypes mixed/related/form-data, boundaries of 1..70 chars from a punctuation-rich "
         "alphabet, 0-4 parts, nesting depth <= 2, part sizes around 0, the boundary window, 8192 and 16384, content alphabets of CR/LF runs, "
@@ -970,12 +971,64 @@ def check_posts(ctx, loop):
         ctx.case(("post", json.dumps(case, sort_keys=True)))
 
 
+# ------------------------------------------------------------------------------ single mechanisms
+def check_mechanisms(ctx, loop):
+    from aiohttp.multipart import BodyPartReader
+    from aiohttp.http_parser import HeadersParser
+    from aiohttp.http_exceptions import BadHttpMessage
+    from aiohttp.helpers import parse_mimetype
+    from multidict import CIMultiDictProxy
+    rng = ctx.rng
+    lines = []
+    n = 400 if ctx.quick else 8000
+    sr = io19.make_stream(loop, 2 ** 16, 10 ** 9)
+    for i in range(n):
+        # _align_base64_chunk
+        k = rng.choice([0, 1, 2, 3, 4, 5, 7, 8, 9, 30, 100])
+        chunk = b"".join(rng.choice([b"A", b"b", b"9", b"+", b"/", b"=", b"\r\n", b"\r", b" ", b"-", b"\x00", b"\xff", b"QUJD"]) for _ in range(k))
+        size = rng.choice([0, 1, 2, 3, 4, 5, 8, len(chunk), max(0, len(chunk) - 1), len(chunk) + 1, 8192])
+        at_end = rng.random() < 0.25
+        part = BodyPartReader(b"--b", CIMultiDictProxy(CIMultiDict({"Content-Transfer-Encoding": "base64"})), sr)
+        part._at_eof = at_end
+        out = part._align_base64_chunk(chunk, size)
+        lines.append((f"al {hx(chunk)} {size} {'1' if at_end else '0'}", f"{hx(out)} {hx(part._b64_carry)}",
+                      {"kind": "al", "chunk": chunk.hex(), "size": size, "at_end": at_end}, "_align_base64_chunk vs Aio.C19.alignB64"))
+        if out + part._b64_carry != chunk:
+            ctx.violation("C19/b64/alignment-loses-bytes", {"kind": "al", "chunk": chunk.hex(), "size": size, "at_end": at_end}, "chunk + carry != input")
+        ctx.hit("al:" + ("cut" if part._b64_carry else "whole"))
+        # base64 encoder
+        d = bytes(rng.randrange(256) for _ in range(rng.choice([0, 1, 2, 3, 4, 5, 6, 30, 31, 32])))
+        lines.append((f"b64 {hx(d)}", hx(base64.b64encode(d)), {"kind": "b64", "d": d.hex()}, "b64encode vs Aio.C19.b64enc"))
+        # strict header parser on byte lines
+        hl = []
+        for _ in range(rng.randint(0, 4)):
+            name = rng.choice([b"Content-Type", b"content-type", b"X-A", b"x a", b"", b" X", b"X ", b"Content-Length", b"CONTENT-LENGTH", b"Et\xc3\xa9", b"a:b", b"x\t", b"!#$%&'*+-.^_`|~"])
+            val = rng.choice([b"v", b" v ", b"\tv\t", b"", b"a\x00b", b"a\x0bb", b"a\x7fb", b"caf\xc3\xa9", b"\xff", b"a\tb", b"x: y", b"1"])
+            hl.append(name + rng.choice([b":", b": ", b":", b""]) + val)
+        try:
+            h, _ = HeadersParser().parse_headers(hl + [b""])
+            impl = "ok " + io19.show_hdrs(h)
+        except BadHttpMessage:
+            impl = "E_BADMSG"
+        lines.append(("hdr" + "".join(" " + hx(l) for l in hl if l) if all(hl) else "hdr", impl if all(hl) else "ok ~", {"kind": "hdr", "lines": [l.hex() for l in hl]},
+                      "HeadersParser.parse_headers vs Aio.C19.parseHeaders"))
+        ctx.hit("hdr:" + impl[:2])
+        # parse_mimetype on ASCII values
+        v = "".join(rng.choice(["multipart", "/", "mixed", ";", " ", "boundary", "=", '"', "b", "+", "x", "*", "\t", "Form-Data", "charset", "MULTIPART"]) for _ in range(rng.randint(0, 9)))
+        m = parse_mimetype(v)
+        params = "&".join(f"{hx(k.encode())}={hx(val.encode())}" for k, val in m.parameters.items()) or "~"
+        lines.append((f"mime {hx(v.encode())}", f"{hx(m.type.encode())} {hx(m.subtype.encode())} {params}", {"kind": "mime", "v": v},
+                      "parse_mimetype vs Aio.C19.parseMimetype"))
+        ctx.case(("mech", chunk.hex(), size, at_end, d.hex(), [l.hex() for l in hl], v))
+    flush_compare(ctx, lines)
+
+
 def check(ctx):
     import time
     loop = asyncio.new_event_loop()
     asyncio.set_event_loop(loop)
     try:
-        for f in (check_probes, check_roundtrips, check_mutations, check_limits, check_posts):
+        for f in (check_probes, check_mechanisms, check_roundtrips, check_mutations, check_limits, check_posts):
             t = time.time()
             f(ctx, loop)
             ctx.extra.setdefault("section_seconds", {})[f.__name__] = round(time.time() - t, 1)
